@@ -294,7 +294,16 @@ func observe(e *Env, o *oracle, al map[string]valset) (map[string]mval, *Violati
 // checkImage opens the database on the image with the real recovery code and checks everything
 // readable against the allowed sets. It returns the observed contents.
 func checkImage(cfg Cfg, keys [][]byte, img *Image, o *oracle, al map[string]valset, probes Probes) (map[string]mval, *Violation) {
+	return checkImageWal(cfg, keys, img, o, al, probes, false)
+}
+
+// checkImageWal: walLoose relaxes the log-versus-contents cross-check to "log value is an allowed
+// value of the key" (see Env.WalAllowed); everything read through the API is checked as usual.
+func checkImageWal(cfg Cfg, keys [][]byte, img *Image, o *oracle, al map[string]valset, probes Probes, walLoose bool) (map[string]mval, *Violation) {
 	e := NewEnv(cfg, keys, img, false)
+	if walLoose {
+		e.WalAllowed = al
+	}
 	e.NoRetain = true
 	defer func() { probes.Add(e.Probes) }()
 	if err := e.Open(); err != nil {
